@@ -56,28 +56,60 @@ def is_leak_free_stream(line):
             return False
     return True
 
+ILL_SCRIPT = re.compile(r"^(h\d+:.*|[SNP]*N[SNP]*S[SNP]*)$")     # a lying size hint, or a yield after None
+PRED_OPS = {"retain", "dedupby", "dedupkey", "dfilter", "rmitem", "resizewith"}
+ITER_OPS = {"drain", "splice", "dfilter", "intoiter", "next", "nextb", "nth", "nthb", "count", "last", "hint",
+            "asslice", "cloneit", "dropit", "forget"}
+
+def premise_ok(pid, line, parsed, k):
+    """a monitor verdict at operation index k speaks about property pid only if the situation the property is
+    about has occurred by then: C04 a panic in user code, C05 a forgotten iterator, C12 a clone, C14 a raw
+    round trip, C17 an ill-behaved callback, C10 the failing operation is an iterator operation"""
+    body = [o.split() for o in line.split("::", 1)[1].split(";") if o.split()]
+    upto = body[:k + 1]
+    if pid == "C04":
+        if any(p["out"] == "panic" for p in parsed if p["k"] <= k):
+            return True
+        # the operation did not come back at all (abort of a double panic, crash): it counts when the history
+        # scripts panics in user code
+        hdr = line.split("::", 1)[0]
+        scripted = " dp=" in hdr or " cp=" in hdr or any("P" in x for t in upto for x in t[1:] if x.isalpha())
+        return k >= len(parsed) and scripted
+    if pid == "C05":
+        return any(t[0] == "forget" for t in upto)
+    if pid == "C12":
+        return any(t[0] in ("clone", "cloneit") for t in upto)
+    if pid == "C14":
+        return any(t[0] == "rawrt" for t in upto)
+    if pid == "C17":
+        return any(t[0] in PRED_OPS or any(ILL_SCRIPT.match(x) for x in t[1:]) for t in upto)
+    if pid == "C10":
+        return k < len(body) and body[k][0] in ITER_OPS or (k < len(body) and body[k][0] == "end")
+    return True
+
 def judge(pid, line, res, expected_abort=False):
     """verdicts of the implementation-side monitors for one executed history"""
     v = []
     h = hrun.header(line)
+    parsed = [p for p in (hrun.parse_line(l) for l in res["lines"]) if p]
     if res["fate"] != "done" and not (expected_abort and res["fate"] == "signal 6"):
         kind = "hang" if res["fate"] == "timeout" else "crash"
-        if relevant(pid, kind):
+        # the operation that did not come back is the one after the last line printed
+        kdead = (parsed[-1]["k"] + 1) if parsed else 0
+        if relevant(pid, kind) and premise_ok(pid, line, parsed, kdead):
             v.append("%s:%s" % (kind, res["fate"]))
     last = None
-    for l in res["lines"]:
-        p = hrun.parse_line(l)
-        if not p:
-            continue
+    for p in parsed:
         last = p
         for m in p["mon"]:
-            if relevant(pid, m):
+            if relevant(pid, m) and premise_ok(pid, line, parsed, p["k"]):
                 v.append("%s@%d:%s" % (m, p["k"], p["op"]))
     if last and last["op"] == "end" and res["fate"] == "done" and is_leak_free_stream(line):
         led, _, blocks = last["ret"].partition(";")
-        if "L" in led and relevant(pid, "leak_elem"):
+        kend = len([o for o in line.split("::", 1)[1].split(";") if o.split()])
+        if "L" in led and relevant(pid, "leak_elem") and premise_ok(pid, line, parsed, kend):
             v.append("leak_elem:" + led)
-        if blocks not in ("[]", "") and relevant(pid, "leak_block"):
+        if blocks not in ("[]", "") and relevant(pid, "leak_block") and premise_ok(pid, line, parsed, kend):
             v.append("leak_block:" + blocks)
     return v
 
